@@ -102,6 +102,9 @@ type interpreter struct {
 	preemptLocks       bool
 	preemptLeft        int
 	inSchedPoint       bool
+	hraftNodes         []*hraftNode
+	hraftIndex         int
+	freePort           int
 	spinLoads          map[*value]int
 	spinThread         *thread
 	spinEpoch          int
